@@ -428,10 +428,17 @@ def insitu(spec, rec, log, rng):
     from vf.gen import schemes as S
 
     S.model_class()
-    for i in range(spec["n"]):
+    targeted = targeted_cases() if spec["shard"] == 100 else []
+    for i in range(spec["n"] + 2 * len(targeted)):
+        if i >= spec["n"]:
+            # hand-built reductions (odd i: the result-level identity runs too)
+            if (i - spec["n"]) % 2 == 0:
+                continue
+            case = targeted[(i - spec["n"]) // 2]
         if i % 2:
             # harness scheme space of C02: weighted / stacked (linked) / reduced / Kronecker matrices
-            case = S.jsonable_case(S.gen_case(rng))
+            if i < spec["n"]:
+                case = S.jsonable_case(S.gen_case(rng))
             for g in case["groups"]:
                 if any(d.get("global_megacomplex") for d in case["datasets"] if d["group"] == g) and case["groups"][g]["link_clp"]:
                     case["groups"][g]["link_clp"] = None
@@ -457,9 +464,10 @@ def insitu(spec, rec, log, rng):
         FAILPOINT["calls"] = 0
         FAILPOINT["arm"] = int(rng.integers(1, 60)) if i % 3 == 0 else None
         injected = False
+        result = None
         try:
             with time_limit(60):
-                optimize(scheme, verbose=False, raise_exception=True)
+                result = optimize(scheme, verbose=False, raise_exception=True)
         except (Exception, CaseTimeout) as e:  # noqa
             injected = "(injected)" in str(e)
             if not injected:
@@ -468,6 +476,17 @@ def insitu(spec, rec, log, rng):
                 FAILPOINT["arm"] = None
                 continue
         FAILPOINT["arm"] = None
+        if result is not None and i % 2:
+            # at the level of the RESULT: the clps reported for the FULL (unreduced) matrix - after constraints and
+            # relations were undone - must still give residual = data - matrix @ clp, index by index (oracle of C03)
+            from vf.props import c03
+
+            try:
+                for mech, detail in c03.check_result(case, result, rec, case)[:2]:
+                    rec.violation(f"insitu:result-identity:{mech}", dict(desc, insitu=True, level="result"), detail)
+                rec.count("insitu_results_checked")
+            except Exception as e:  # noqa
+                rec.skip(f"result-level identity not applicable: {type(e).__name__}")
         solves = [l for l in log if not l[0].startswith("provider:")]
         prov = [l for l in log if l[0].startswith("provider:")]
         if len(prov) != len(solves):
@@ -500,6 +519,30 @@ def insitu(spec, rec, log, rng):
             rec.count("insitu_solves_checked")
         rec.case(("insitu", desc["kind"], desc["residual_function"], desc["n_comp"], desc["irf"], str(desc["linked"])), True, sample=desc,
                  features=[f"insitu|{desc['residual_function']}"])
+
+
+def targeted_cases():
+    """Reductions whose shape changes from one global index to the next: two relations / constraints with different
+    intervals in one unlinked group (the matrix of index i must not inherit what was applied at index i-1), VP and NNLS."""
+    from vf.gen import schemes as S
+
+    out = []
+    for nnls in (False, True):
+        for linked in (False, True):
+            ds = [{"label": f"ds{k + 1}", "group": "g1", "t": [0.0, 0.25, 0.5, 1.0, 1.5, 2.5, 4.0, 6.0, 8.0, 11.0][: 9 + k], "g": [1.0, 2.0, 3.0, 4.0, 5.0, 6.0],
+                   "layout": "mg", "megacomplex": ["m1"], "dseed": 700 + k, "id0": 100 * k, "weight": None, "scale": None, "mc_scale": None} for k in range(2)]
+            out.append(S.jsonable_case({
+                "datasets": ds, "megacomplexes": {"m1": {"labels": ["a", "b", "c", "d"], "rates": ["k.1", "k.2", "k.3", "k.4"], "disp": None}},
+                "global_megacomplexes": {}, "groups": {"g1": {"link_clp": linked, "residual_function": "non_negative_least_squares" if nnls else "variable_projection"}},
+                "parameters": {"k.1": {"value": 2.1}, "k.2": {"value": 0.7}, "k.3": {"value": 0.22}, "k.4": {"value": 0.05},
+                               "rel.1": {"value": 0.6, "vary": False}, "rel.2": {"value": 1.4, "vary": False}},
+                "link_tolerance": 0.0, "link_method": "nearest",
+                "constraints": [{"type": "zero", "target": "d", "interval": [2.0, 3.2]}],
+                "relations": [{"source": "a", "target": "b", "parameter": "rel.1", "interval": [1.0, 3.2]},
+                              {"source": "a", "target": "c", "parameter": "rel.2", "interval": [3.0, 5.2]}],
+                "penalties": [], "weights": [],
+                "features": {"nnls": nnls, "link_clp": linked, "n_datasets": 2, "targeted": "two relations with different intervals", "relations": 2, "constraints": 1}}))
+    return out
 
 
 def retry_after_fault(scheme, rng, rec, log, desc):
